@@ -2,6 +2,7 @@ import PbBss.Proofs.FixedPointRound
 import PbBss.Proofs.FixedPointChain
 import PbBss.Proofs.FixedPointCacg
 import PbBss.Proofs.EmVmf
+import PbBss.Proofs.FixedPointVmf
 /-! # C03 — the true partition of separable data is a stable EM fixed point
 
 What is proved here (about the SAME definitions `driver_em` / `driver_dist` / `driver_posterior` execute, at
@@ -17,11 +18,15 @@ What is proved here (about the SAME definitions `driver_em` / `driver_dist` / `d
 3. **one full EM round** of the Watson mixture from the hard true partition, a chain of rounds under explicit
    per-iterate hypotheses (`fixed_point_chain_partial`), and a complete `n`-step fixed-point theorem by induction
    over `Em.fit` for the balanced scene (`fixed_point_watson_balanced`);
-4. **one full EM round** of the cACG mixture from the hard true partition (`cacg_round_hard`).
+4. **one full EM round** of the cACG mixture from the hard true partition (`cacg_round_hard`);
+5. the **vMF mixture** on the executable model: the first M-step from the hard true partition returns the prototypes
+   exactly (any class masses), one full EM round (`vmf_round_hard`), and the complete `n`-step fixed-point theorem by
+   induction over `Em.fit` for the balanced scene (`fixed_point_vmf_balanced`: means, common concentration, "points
+   at the true prototype", arg-max = truth, for every `n ≥ 1`).
 
 NOT proved: the quantitative statement for `|cos| ≤ 0.3`, perturbation `≤ 1e-2` (needs eigenvector perturbation
-bounds), the Bingham model, the M-steps of the vMF / full-covariance Gaussian / integration trainers (they have no
-`Em` model), and — outside the balanced scene — the derivation of the per-iterate mass-dominance / margin hypotheses of
+bounds), the Bingham model, fixed-point statements for the full-covariance Gaussian / integration trainers (their
+steps are in the executable model and tied step-wise; only their E-step ranking is a theorem), and — outside the balanced scene — the derivation of the per-iterate mass-dominance / margin hypotheses of
 `fixed_point_chain_partial` from the start. -/
 open PbBss PbBss.Em PbBss.FixedPoint Finset
 
@@ -667,5 +672,96 @@ theorem vmf_em_mstep_valid (lnorm : ℝ → ℝ) (lo hi tiny : ℝ) (w aux : Fin
    (vmfMstep_kappa_range lnorm lo hi tiny w aux y hlh).2, rfl⟩
 
 end vmf_em
+
+/-! ## The vMF mixture: fixed point of the EM loop (`PbBss/Proofs/FixedPointVmf.lean`) -/
+section vmf_fixed_point
+variable {K N D : Nat} {a : Fin (K+1) → Fin D → ℝ} {c : Fin N → Fin (K+1)} {y : Fin N → Fin D → ℝ}
+
+/-- **first vMF M-step from the hard true partition**: noise-free classes on real orthonormal prototypes (the mixture
+has already normalised the observations, so positive gains are gone), ANY positive class masses not below the
+resultant floor — the fitted mean direction of class `k` is exactly `a k`. -/
+theorem vmf_first_mstep_hard (ha : OrthoProtoR a) (hy : ∀ n d, y n d = a (c n) d) (lnorm : ℝ → ℝ) (lo hi tinyV : ℝ)
+    (tiny : ℝ) (rule : WeightRule) (tie : Tying N) (eps : ℝ) (s : Fin N → ℝ)
+    (hmass : ∀ k, 0 < ∑ n, hardStart c k n * s n) (hguard : ∀ k, tinyV ≤ ∑ n, hardStart c k n * s n)
+    (k : Fin (K+1)) (d : Fin D) :
+    rd ((fit tiny (vmfFamily D lnorm lo hi tinyV) rule tie eps s y 1 (hardStart c)).c k).mean d = a k d :=
+  FixedPoint.vmf_first_mstep_hard ha hy lnorm lo hi tinyV tiny rule tie eps s hmass hguard k d
+
+/-- **the true partition survives one EM round (vMFMM)**, any weight rule / tying / class masses: after the first
+M-step every class has its prototype as mean and the common concentration `κ₁`; an observation's true class is
+strictly first as soon as the weight margin `π_j < π_c·e^{κ₁}` holds. -/
+theorem vmf_round_hard (ha : OrthoProtoR a) (hy : ∀ n d, y n d = a (c n) d) (lnorm : ℝ → ℝ) (lo hi tinyV : ℝ)
+    (tiny : ℝ) (htiny : 0 < tiny) (rule : WeightRule) (tie : Tying N) (eps : ℝ) (s : Fin N → ℝ)
+    (hmass : ∀ k, 0 < ∑ n, hardStart c k n * s n) (hguard : ∀ k, tinyV ≤ ∑ n, hardStart c k n * s n) :
+    let fam := vmfFamily D lnorm lo hi tinyV
+    let θ₁ := fit tiny fam rule tie eps s y 1 (hardStart c)
+    (∀ k, (∀ d, rd (θ₁.c k).mean d = a k d) ∧ (θ₁.c k).kappa = vmfKappa D lo hi 1
+        ∧ (θ₁.c k).logNorm = lnorm (vmfKappa D lo hi 1))
+      ∧ (∀ n j, j ≠ c n → θ₁.w j n < θ₁.w (c n) n * Real.exp (vmfKappa D lo hi 1) →
+            eStep tiny fam θ₁ y j n < eStep tiny fam θ₁ y (c n) n)
+      ∧ ∀ n, (∀ j, j ≠ c n → θ₁.w j n < θ₁.w (c n) n * Real.exp (vmfKappa D lo hi 1)) →
+            vargmax (fun k => eStep tiny fam θ₁ y k n) = c n :=
+  FixedPoint.vmf_round_hard ha hy lnorm lo hi tinyV tiny htiny rule tie eps s hmass hguard
+
+/-- with `weight_constant_axis = -2` (uniform weights) the margin is automatic: `0 < min_concentration ≤ max_concentration` -/
+theorem vmf_round_hard_uniform (ha : OrthoProtoR a) (hy : ∀ n d, y n d = a (c n) d) (lnorm : ℝ → ℝ) (lo hi tinyV : ℝ)
+    (hlo : 0 < lo) (hlh : lo ≤ hi) (tiny : ℝ) (htiny : 0 < tiny) (rule : WeightRule) (tie : Tying N)
+    (htie : tie.uniform = true) (eps : ℝ) (s : Fin N → ℝ)
+    (hmass : ∀ k, 0 < ∑ n, hardStart c k n * s n) (hguard : ∀ k, tinyV ≤ ∑ n, hardStart c k n * s n) (n : Fin N) :
+    vargmax (fun k => eStep tiny (vmfFamily D lnorm lo hi tinyV)
+      (fit tiny (vmfFamily D lnorm lo hi tinyV) rule tie eps s y 1 (hardStart c)) y k n) = c n :=
+  FixedPoint.vmf_round_hard_uniform ha hy lnorm lo hi tinyV hlo hlh tiny htiny rule tie htie eps s hmass hguard n
+
+/-- **the true partition is a stable fixed point for EVERY number of iterations (vMFMM, balanced scene)**.
+Noise-free real orthonormal scene, start = the true partition blurred by a uniform leak that keeps the true class the
+largest (`twoLevel c g₀ h₀`), uniform weights, equal positive class masses `S`, clipping bounds `0 < lo ≤ hi`
+(`min_concentration = 1e-10 > 0` in the code), E-step denominator clamp and resultant floor inactive.  Then for every
+`n ≥ 1` the model `fit n γ₀` has the posterior levels `(g, h) = levSeq … (n−1)` still ordered (`h < g`), every class the
+mean direction `(g·a_k + h·Σ_{j≠k} a_j)/ρ` (unit length, closer to its own prototype than to any other), one common
+concentration in `[lo, hi]`, and the arg-max of its E-step is the true class at every observation.  Induction over the
+EM loop, no trajectory hypothesis.  The proof uses only `lo ≤ κ ≤ hi` and "κ is common to the classes", so it is
+indifferent to the value Banerjee's formula takes at mean resultant length exactly 1 (ℝ: `x/0 = 0 → lo`; IEEE: `+inf → hi`). -/
+theorem fixed_point_vmf_balanced (ha : OrthoProtoR a) (hy : ∀ n d, y n d = a (c n) d) (lnorm : ℝ → ℝ)
+    (lo hi tinyV : ℝ) (hlo : 0 < lo) (hlh : lo ≤ hi) (tiny : ℝ) (htiny : 0 < tiny) (ht : tiny ≤ 1 / ((K+1 : ℕ) : ℝ))
+    (rule : WeightRule) (tie : Tying N) (htie : tie.uniform = true) (eps : ℝ) (s : Fin N → ℝ) (S : ℝ) (hS : 0 < S)
+    (hbal : ∀ k, classMass c s k = S) (hguard : tinyV ≤ S / Real.sqrt ((K+1 : ℕ) : ℝ))
+    (g₀ h₀ : ℝ) (hgh : g₀ + K * h₀ = 1) (hh0 : 0 ≤ h₀) (hlt : h₀ < g₀) (n : Nat) (hn : 1 ≤ n) :
+    let fam := vmfFamily D lnorm lo hi tinyV
+    let θ := fit tiny fam rule tie eps s y n (twoLevel c g₀ h₀)
+    let g := (levSeq D K lo hi g₀ h₀ (n-1)).1
+    let h := (levSeq D K lo hi g₀ h₀ (n-1)).2
+    let κ := vmfKappa D lo hi (rho K g h)
+    (g + K * h = 1 ∧ 0 ≤ h ∧ h < g)
+      ∧ (lo ≤ κ ∧ κ ≤ hi)
+      ∧ (∀ k, (∀ d, rd (θ.c k).mean d = (∑ j, (if j = k then g else h) * a j d) / rho K g h)
+            ∧ (θ.c k).kappa = κ ∧ (θ.c k).logNorm = lnorm κ)
+      ∧ (∀ k, (∀ j, j ≠ k → ∑ d, rd (θ.c k).mean d * a j d < ∑ d, rd (θ.c k).mean d * a k d)
+            ∧ ∑ d, rd (θ.c k).mean d * rd (θ.c k).mean d = 1)
+      ∧ ∀ obs, vargmax (fun k => eStep tiny fam θ y k obs) = c obs :=
+  FixedPoint.fixed_point_vmf_balanced ha hy lnorm lo hi tinyV hlo hlh tiny htiny ht rule tie htie eps s S hS hbal hguard
+    g₀ h₀ hgh hh0 hlt n hn
+
+/-- the hard start is the case `g₀ = 1`, `h₀ = 0` -/
+theorem fixed_point_vmf_balanced_hard (ha : OrthoProtoR a) (hy : ∀ n d, y n d = a (c n) d) (lnorm : ℝ → ℝ)
+    (lo hi tinyV : ℝ) (hlo : 0 < lo) (hlh : lo ≤ hi) (tiny : ℝ) (htiny : 0 < tiny) (ht : tiny ≤ 1 / ((K+1 : ℕ) : ℝ))
+    (rule : WeightRule) (tie : Tying N) (htie : tie.uniform = true) (eps : ℝ) (s : Fin N → ℝ) (S : ℝ) (hS : 0 < S)
+    (hbal : ∀ k, classMass c s k = S) (hguard : tinyV ≤ S / Real.sqrt ((K+1 : ℕ) : ℝ))
+    (n : Nat) (hn : 1 ≤ n) (obs : Fin N) :
+    vargmax (fun k => eStep tiny (vmfFamily D lnorm lo hi tinyV)
+      (fit tiny (vmfFamily D lnorm lo hi tinyV) rule tie eps s y n (hardStart c)) y k obs) = c obs :=
+  FixedPoint.fixed_point_vmf_balanced_hard ha hy lnorm lo hi tinyV hlo hlh tiny htiny ht rule tie htie eps s S hS hbal
+    hguard n hn obs
+
+/-- non-vacuity: two classes on the standard basis of `ℝ²`, one observation each, blurred start `(3/4, 1/4)`, all `n ≥ 1` -/
+example (n : Nat) (hn : 1 ≤ n) (obs : Fin 2) :
+    vargmax (fun k => eStep (1/4) (vmfFamily 2 (fun _ => 0) 1 2 (1/2))
+      (fit (1/4) (vmfFamily 2 (fun _ => 0) 1 2 (1/2)) WeightRule.unitNorm ⟨true, 1, tab fun _ => 0⟩ 0
+        (fun _ => 1) a2R n (twoLevel (fun m : Fin 2 => m) (3/4) (1/4))) a2R k obs) = obs :=
+  (fixed_point_vmf_balanced ortho_a2R (c := fun m : Fin 2 => m) (fun _ _ => rfl) (fun _ => 0) 1 2 (1/2) one_pos
+    (by norm_num) (1/4) (by norm_num) (by norm_num) WeightRule.unitNorm ⟨true, 1, tab fun _ => 0⟩ rfl 0 (fun _ => 1) 1
+    one_pos (fun k => by fin_cases k <;> simp [classMass]) (by rw [one_div]; simpa using half_le_inv_sqrt_two)
+    (3/4) (1/4) (by norm_num) (by norm_num) (by norm_num) n hn).2.2.2.2 obs
+
+end vmf_fixed_point
 
 end PbBss.C03
